@@ -61,20 +61,12 @@ class Vector(object):
 
     def __hash__(self):
         """return the hash of a vector"""
-        return hash(
-            (
-                "Vector",
-                round(self._v[0], get_sig_figures()),
-                round(self._v[1], get_sig_figures()),
-                round(self._v[2], get_sig_figures()),
-                round(self._v[0], get_sig_figures())
-                * round(self._v[1], get_sig_figures()),
-                round(self._v[1], get_sig_figures())
-                * round(self._v[2], get_sig_figures()),
-                round(self._v[2], get_sig_figures())
-                * round(self._v[0], get_sig_figures()),
-            )
-        )
+        # equal vectors must hash equally whatever numeric type their
+        # coordinates have, so the floats are rounded (see Point.__hash__)
+        x = round(float(self._v[0]), get_sig_figures())
+        y = round(float(self._v[1]), get_sig_figures())
+        z = round(float(self._v[2]), get_sig_figures())
+        return hash(("Vector", x, y, z, x * y, y * z, z * x))
 
     def __repr__(self):
         return "Vector({:.2f}, {:.2f}, {:.2f})".format(*self._v)
